@@ -258,6 +258,24 @@ def main():
         pass
     try:
         result = props.CHECKS[pid](ctx)
+        # thorough: further rounds under derived seeds (every random choice differs; the exhaustive parts repeat), merged.
+        # Rounds stop early once something has been found: one violation is enough to report.
+        rounds = int(os.environ.get("VERIF_THOROUGH_ROUNDS", "3")) if tier == "thorough" else 1
+        known0 = {(p_, k_) for p_, k_, _w in load_known()[0]}
+        for rnd in range(1, rounds):
+            if result.diffs or any((pid, f["key"]) not in known0 for f in result.findings):
+                break
+            ctx2 = props.Ctx(pid=pid, tier=tier, seed=f"{seed}/round{rnd}", facts=facts, build=b)
+            ctx2.escalated = ctx.escalated
+            r2 = props.CHECKS[pid](ctx2)
+            seen_keys = {f["key"] for f in result.findings}
+            result.findings += [f for f in r2.findings if f["key"] not in seen_keys or (pid, f["key"]) not in known0]
+            result.diffs += r2.diffs
+            for k, v in r2.coverage.items():
+                if isinstance(v, (int, float)) and not isinstance(v, bool) and k != "distinct_nontrivial":
+                    result.coverage[k] = result.coverage.get(k, 0) + v
+            result.coverage["distinct_nontrivial"] = max(result.coverage.get("distinct_nontrivial", 0), r2.coverage.get("distinct_nontrivial", 0))
+            result.coverage["rounds"] = rnd + 1
         signal.setitimer(signal.ITIMER_REAL, 0)
     except (Exception, WallClock):
         signal.setitimer(signal.ITIMER_REAL, 0)
